@@ -252,6 +252,18 @@ Definition pick_check (ls : list (list table)) (c : compaction) : N :=
            end
   end end.
 
+(* bookkeeping checks on what the implementation reports about a compaction's outputs *)
+Definition all_ids (ls : list (list table)) : list N := map t_id (concat ls).
+Fixpoint ids_nodup (l : list N) : bool :=
+  match l with [] => true | x :: r => negb (existsb (N.eqb x) r) && ids_nodup r end.
+Definition layout_ok (ls : list (list table)) (c : compaction) (out : src) : bool :=
+  (fold_left (fun a ic => a + N.to_nat (snd ic))%nat (c_layout c) O =? length out)%nat
+  && forallb (fun ic => negb (snd ic =? 0) && negb (existsb (N.eqb (fst ic)) (all_ids ls))) (c_layout c)
+  && ids_nodup (map fst (c_layout c)).
+Definition order_ok (order : list N) (nl : list table) : bool :=
+  (length order =? length nl)%nat && forallb (fun t => existsb (N.eqb (t_id t)) order) nl
+  && ids_nodup order.
+
 Inductive result := Ok (s : sys) | Bad (code : N).
 
 (* one label: Bad = the model disagrees with the observation carried by the label
@@ -295,14 +307,19 @@ Definition step (s : sys) (o : op) : result :=
       end
   | Flush id =>
       let d := rotate (s_db s) in
-      Ok (set_db s (flush_oldest d id))
+      if existsb (N.eqb id) (all_ids (l_levels (s_db s))) then Bad 142
+      else Ok (set_db s (flush_oldest d id))
   | Compact c out =>
       let ls := l_levels (s_db s) in
       let pc := pick_check ls c in
       if negb (pc =? 0) then Bad pc
       else
       let res := compaction_output ls c in
-      if entries_eqb res out then
+      if negb (layout_ok ls c res) then Bad 140
+      else if negb (order_ok (c_order c)
+                     (let nl := drop_tables (c_bot c) (nth (c_next c) ls []) ++ split_counts res (c_layout c) in
+                      if (c_this c =? c_next c)%nat then drop_tables (c_top c) nl else nl)) then Bad 141
+      else if entries_eqb res out then
         let ls' := apply_compaction ls c in
         if sorted_by_smallest (nth (c_next c) ls' []) || (length (nth (c_next c) ls' []) <=? 1)%nat
         then Ok (set_db s (mkLsm (l_mt (s_db s)) (l_imm (s_db s)) ls')) else Bad 3
